@@ -6,7 +6,7 @@ Open Scope N_scope.
 
 Lemma io_fail_no_effect a e e' : io a e = (false, e') -> e_disk e' = e_disk e.
 Proof.
-  unfold io. destruct (is_delete a); [intros H; inversion H|].
+  unfold io. destruct (is_delete a); [destruct (armed e && fx_del (e_fx e)); intros H; inversion H; reflexivity|].
   destruct (e_fault e) as [[|n]|]; intros H; inversion H; reflexivity.
 Qed.
 
